@@ -157,7 +157,10 @@ def execute(spec, want_obs=False):
         if err is not None or res is None:
             break
         ck, x0 = res, res.x
-    nonfinite = any(not np.isfinite(v) for v in obs.fval.values()) or any(not np.all(np.isfinite(g)) for g in obs.gval.values())
+    # values RETURNED BY THE USER's callables only: a finite-difference gradient is computed by the library, and a NaN in it
+    # with finite objective values is the library's doing (before fix 845aa87: variables with lb == ub)
+    nonfinite = any(not np.isfinite(v) for v in obs.fval.values()) or \
+        (obs.jac_raw is not None and any(not np.all(np.isfinite(g)) for g in obs.gval.values()))
     out = {"trace": finalize(obs), "spec": spec, "n_events": len(obs.events), "nonfinite": bool(nonfinite),
            "err": repr(err) if err is not None else None,
            "msgs": [r.message if r is not None else None for r in results],
@@ -252,10 +255,8 @@ def rand_spec(rng, families, *, nmax=6, small_budgets=True, jacs=("callable",), 
         kw["maxfun"] = 5000
     spec = {"family": fam, "n": n, "pseed": int(rng.integers(1 << 30)), "kwargs": kw,
             "jac": str(rng.choice(list(jacs)))}
-    if spec["jac"] != "callable":
-        # SciPy's differentiation routine cannot difference along a coordinate whose interval is a
-        # single point (h = 0 -> NaN); degenerate sides are exercised with callable gradients only
-        spec["box_kinds"] = ["free", "lo", "up", "box", "box"]
+    # (finite-difference modes get degenerate sides lb == ub like every other mode since fix 845aa87: before it the
+    # derivative along a fixed variable came out as 0/0 = NaN and the run returned the start point with message 'START')
     if allow_cb and rng.random() < 0.5:
         spec["cb"] = [True, 1, 2, 3][int(rng.integers(4))]
         if spec["cb"] is True:
